@@ -160,6 +160,11 @@ func isPSIComplete(ps []*Packet) bool {
 	// Pointer filler bytes
 	i.Skip(int(b))
 
+	// Nothing but the pointer field and its filler bytes so far: the sections are still to come
+	if !i.HasBytesLeft() {
+		return false
+	}
+
 	for i.HasBytesLeft() {
 
 		// Get PSI table ID
